@@ -11,7 +11,7 @@ PROPS = {
         "pkg": "c13",
         "legs": ["tellhub", "askhub", "queue"],
         "runs": {"quick": 6000, "thorough": 400000},
-        "budget": {"quick": 150, "thorough": 1500},
+        "budget": {"quick": 150, "thorough": 700},
         "rule": "one run = one seed = one schedule of 1-3 producers, 1-4 receivers, cancellers and an optional closer on one real TellHub/AskHub/Queue; "
                 "every channel operation and lock in hubs.go/queue.go is a scheduling point and the seeded scheduler picks who runs; "
                 "non-trivial = at least one message was handed over and at least one step had several runnable tasks (plus, for fault-free runs, more than one hand-over); "
@@ -34,7 +34,7 @@ PROPS["C06"] = {
     "pkg": "sess", "engine": "seqsim", "env": {"SIM_PROP": "C06"},
     "legs": ["random", "random", "random", "sweep"],
     "runs": {"quick": 40000, "thorough": 2400000},
-    "budget": {"quick": 150, "thorough": 1800},
+    "budget": {"quick": 150, "thorough": 700},
     "rule": "one run = one schedule of deliver/drop/duplicate/reorder/reflect/retransmit/send actions over the genuine messages of one honest real Session pair, followed by the fair suffix; "
             "leg random draws up to 40 actions from the seed, leg sweep enumerates every action sequence over a 9-letter alphabet by length (run index = sequence number; depth 4 complete in quick, depth 6 in thorough); "
             "non-trivial = at least two actions before the suffix; distinct = distinct event traces (hash of the per-action log)",
@@ -48,7 +48,7 @@ PROPS["C02"] = {
     "pkg": "sess", "engine": "seqsim", "env": {"SIM_PROP": "C02"},
     "legs": ["passive", "passive", "passive", "active", "active", "chan-replay", "chan-restart", "chan-sess-concurrent"],
     "runs": {"quick": 8000, "thorough": 400000},
-    "budget": {"quick": 220, "thorough": 2400},
+    "budget": {"quick": 220, "thorough": 700},
     "rule": "session legs (passive, active): one run = one adversary schedule (10-80 actions) over 2-4 real Session pairs (A-B pairs incl. role swaps, unrelated C-D): deliver/drop/reorder/replay/cross-feed/reflect any byte string ever emitted, 8 kinds of mutation, clock jumps across expiry; leg active adds the protocol-speaking attacker of C03; "
             "channel legs (chan-replay, chan-restart): one run = two real p2pke.Channels under the parking scheduler with 1-3 concurrent senders per side over several rekey periods (and a restart of one side), on a network that loses, duplicates, reorders and corrupts, with a replayer re-injecting any datagram ever sent (to its destination, reflected to its sender, or after its session was rotated out); leg chan-sess-concurrent: 2-4 tasks call Send concurrently on ONE established Session (interleaved at every atomic operation), oracle: counters unique, each message decrypts to its own plaintext once; "
             "non-trivial = at least one fault fired and at least one session became ready / one plaintext was delivered; distinct = distinct event traces",
@@ -61,7 +61,7 @@ PROPS["C03"] = {
     "pkg": "sess", "engine": "seqsim", "env": {"SIM_PROP": "C03"},
     "legs": ["active"],
     "runs": {"quick": 12000, "thorough": 600000},
-    "budget": {"quick": 150, "thorough": 1800},
+    "budget": {"quick": 150, "thorough": 700},
     "rule": "as C02 leg active: in addition an attacker with its own key speaks the wire protocol through its own noise state in both roles: honest, stolen (replayed) timestamp claim, victim key with attacker signature, wrong-purpose signature, garbage, stolen channel-binding signature from another handshake, early data, data under attacker keys; "
             "after every action every honest session that is usable (IsReady, returned application data, or Send succeeded) must report a remote key whose owner demonstrably took part in this very handshake (mutual acceptance of genuine handshake messages, or the attacker's own key); non-trivial/distinct as C02",
     "components": SEQ,
@@ -77,7 +77,7 @@ KAD = {
 }
 PROPS["C18"] = {
     "pkg": "kad", "engine": "seqsim", "env": {"SIM_PROP": "C18"}, "legs": ["history"],
-    "runs": {"quick": 20000, "thorough": 1500000}, "budget": {"quick": 150, "thorough": 1800},
+    "runs": {"quick": 20000, "thorough": 1500000}, "budget": {"quick": 150, "thorough": 700},
     "rule": "one run = one generated history (5-125 operations: put, update, delete, expire, get/contains, enumeration) against one real Cache under a simulated clock (equal timestamps, steps, jumps, 10% of runs all-zero times); "
             "locus length 1,2,4,32 bytes, every accepted (capacity, per-bucket minimum) shape incl. the smallest capacity the constructor accepts and 0; keys biased to share 0..all leading bits with the locus; "
             "non-trivial = at least one eviction or expiry happened; distinct = distinct operation traces",
@@ -88,7 +88,7 @@ PROPS["C18"] = {
 }
 PROPS["C19"] = {
     "pkg": "kad", "engine": "seqsim", "env": {"SIM_PROP": "C19"}, "legs": ["history"],
-    "runs": {"quick": 20000, "thorough": 1500000}, "budget": {"quick": 150, "thorough": 1800},
+    "runs": {"quick": 20000, "thorough": 1500000}, "budget": {"quick": 150, "thorough": 700},
     "rule": "the cache states reached by C18-style histories; after every mutation two generated query keys (sharing 0..all leading bits with the locus and with entries) are checked: ForEach visits every entry once in non-decreasing XOR distance, Closest is a true minimum, ForEachCloser yields all and only the nearer entries, ForEachMatching all and only the prefix matches, against a brute-force big-endian XOR comparison; "
             "non-trivial = an order check over at least two entries took place; distinct = distinct traces",
     "components": KAD,
@@ -98,7 +98,7 @@ PROPS["C19"] = {
 }
 PROPS["C20"] = {
     "pkg": "kad", "engine": "seqsim", "env": {"SIM_PROP": "C20"}, "legs": ["honest", "adversarial", "adversarial"],
-    "runs": {"quick": 4000, "thorough": 300000}, "budget": {"quick": 150, "thorough": 1800},
+    "runs": {"quick": 4000, "thorough": 300000}, "budget": {"quick": 150, "thorough": 700},
     "rule": "one run = one simulated network of 3-30 (thorough: up to 200) real DHTNodes with random or dense ids, random links, then 3-14 operations (find node, join, put, get, crash/restart, churn) from random origins with 0..N initial peers; the Ask callbacks are the network: per-call loss, crashed nodes, and (leg adversarial) 1-3 responders returning self/asker/target, cyclic and duplicated lists, 10^4-entry lists, fabricated ever-closer ids; "
             "non-trivial = some operation made more than one ask; distinct = distinct traces",
     "components": KAD,
@@ -115,9 +115,9 @@ STACKS = ["sim", "mem", "frag/sim", "frag/mem", "mbapp/sim", "mbapp/mem",
           "frag/frag/sim", "mbapp/frag/mem", "mux-varint/mux-string/sim"]
 
 PROPS["C01"] = {
-    "tierb": {"legs": ["quic/mem"], "runs": {"quick": 48, "thorough": 1500}, "budget": {"quick": 150, "thorough": 1500}},
+    "tierb": {"legs": ["quic/mem"], "runs": {"quick": 48, "thorough": 700}, "budget": {"quick": 150, "thorough": 700}},
     "pkg": "stk", "env": {"SIM_PROP": "C01"}, "legs": STACKS,
-    "runs": {"quick": 2700, "thorough": 200000}, "budget": {"quick": 200, "thorough": 2400},
+    "runs": {"quick": 2700, "thorough": 200000}, "budget": {"quick": 200, "thorough": 700},
     "rule": "one run = one seed = one stack of the catalogue (27 stacks: every swarm implementation except QUIC/SSH/UDP and nestings up to depth 4, over the simulated network and over the real in-memory swarm) on 2-4 nodes with 1-3 concurrent senders and receivers per node, ledger payloads of boundary-biased lengths 0..MTU, random IOVec splits, buffers poisoned after Tell; network drop/duplicate/reorder (corruption only beneath P2PKE) and all task interleavings drawn from the seed; "
             "non-trivial = at least one delivery was checked, at least one fault fired and several tasks were runnable at once; distinct = distinct scheduler decision traces",
     "components": TIER_A,
@@ -127,9 +127,9 @@ PROPS["C01"] = {
 }
 
 PROPS["C09"] = {
-    "tierb": {"legs": ["quic/mem"], "runs": {"quick": 48, "thorough": 1500}, "budget": {"quick": 150, "thorough": 1500}},
+    "tierb": {"legs": ["quic/mem"], "runs": {"quick": 48, "thorough": 700}, "budget": {"quick": 150, "thorough": 700}},
     "pkg": "stk", "env": {"SIM_PROP": "C09"}, "legs": STACKS,
-    "runs": {"quick": 2700, "thorough": 150000}, "budget": {"quick": 200, "thorough": 2400},
+    "runs": {"quick": 2700, "thorough": 150000}, "budget": {"quick": 200, "thorough": 700},
     "rule": "one run = one stack of the catalogue on two nodes over a fault-free network with ample queues, per-run inner MTU (32..1280, small ones forcing up to 255 fragments), logical MTU, worker count and multiplexer channel id (empty/short/130-byte strings, 0, small and maximal integers); 3-8 Tell/Ask operations, one at a time, with lengths 0, 1, MTU-1, MTU, MTU+1, MTU+k and each layer's fragment-size boundaries; "
             "non-trivial = at least one within-MTU operation arrived and at least one above-MTU operation was tried; distinct = distinct scheduler decision traces",
     "components": TIER_A,
@@ -142,9 +142,9 @@ ASK_STACKS = ["mem", "mbapp/sim", "mbapp/mem", "askmux-string/mem", "askmux-vari
               "multi/mbapp/mem+mbapp/sim", "wl/mbapp/sim", "wl/mem", "mbapp/p2pke/sim", "mbapp/frag/mem"]
 
 PROPS["C11"] = {
-    "tierb": {"legs": ["quic/mem"], "runs": {"quick": 48, "thorough": 1500}, "budget": {"quick": 150, "thorough": 1500}},
+    "tierb": {"legs": ["quic/mem"], "runs": {"quick": 48, "thorough": 700}, "budget": {"quick": 150, "thorough": 700}},
     "pkg": "stk", "env": {"SIM_PROP": "C11"}, "legs": ASK_STACKS,
-    "runs": {"quick": 2000, "thorough": 150000}, "budget": {"quick": 200, "thorough": 2400},
+    "runs": {"quick": 2000, "thorough": 150000}, "budget": {"quick": 200, "thorough": 700},
     "rule": "one run = one ask-capable stack (10 stacks: in-memory, message-box over simulated network / in-memory / fragmenting / P2PKE, ask-multiplexers, multi-transport, whitelisted) on 2-4 nodes with 1-4 concurrent askers and 1-3 servers per node; unique requests, handlers produce a unique response per (request, server, invocation); negative returns, too-small buffers, response sizes around buffer size and MTU, context deadlines 2 s..3 min of simulated time, a destination closed at a random step; loss/duplication/reordering of request and multi-part response datagrams; "
             "non-trivial = at least one ask returned exactly its handler's answer, at least one fault fired, several tasks runnable at once; distinct = distinct scheduler decision traces",
     "components": TIER_A,
@@ -154,9 +154,9 @@ PROPS["C11"] = {
 }
 
 PROPS["C12"] = {
-    "tierb": {"legs": ["quic/mem"], "runs": {"quick": 48, "thorough": 1500}, "budget": {"quick": 150, "thorough": 1500}},
+    "tierb": {"legs": ["quic/mem"], "runs": {"quick": 48, "thorough": 700}, "budget": {"quick": 150, "thorough": 700}},
     "pkg": "stk", "env": {"SIM_PROP": "C12"}, "legs": [x for x in STACKS if x != "sim"],
-    "runs": {"quick": 2600, "thorough": 150000}, "budget": {"quick": 240, "thorough": 2400},
+    "runs": {"quick": 2600, "thorough": 150000}, "budget": {"quick": 240, "thorough": 700},
     "rule": "one run = one stack of the catalogue (26 stacks) on 2-4 nodes: 0-3 tasks blocked in Receive and 0-3 in ServeAsk of a victim node with contexts that never expire, optional tells/asks in flight towards it, 1-2 closer tasks (sometimes closing twice, sometimes concurrently) at a seeded step, then new Receive/ServeAsk calls on the closed swarm; finally every node is closed; network faults and all task interleavings from the seed; "
             "non-trivial = at least one call was blocked when Close was called and several tasks were runnable at once; distinct = distinct scheduler decision traces",
     "components": TIER_A,
@@ -168,7 +168,7 @@ PROPS["C12"] = {
 PROPS["C10"] = {
     "pkg": "stk", "env": {"SIM_PROP": "C10"},
     "legs": ["frag/sim", "mbapp/sim", "frag/frag/sim", "wl/mbapp/sim", "askmux-varint/mbapp/sim", "map/frag/sim", "mux-string/frag/sim", "frag/sim", "mbapp/sim"],
-    "runs": {"quick": 1800, "thorough": 120000}, "budget": {"quick": 240, "thorough": 2400},
+    "runs": {"quick": 1800, "thorough": 120000}, "budget": {"quick": 240, "thorough": 700},
     "rule": "one run = the fragmenting swarm or the message-box swarm (and nestings) receiving from 2-4 sources, each with 1-3 concurrent senders of 1-4 messages of 0-13 fragments; the simulator is the inner transport: per-fragment loss, duplication, arbitrary delivery order across messages and sources, clock advances of up to 61 s between deliveries so that partial reassembly state is garbage-collected and re-created; inner MTU 40-200, workers 1-4; "
             "inner datagrams are attributed to ledger messages by content to measure reach (reassembled out of order / with duplicate fragments / incomplete never delivered); non-trivial = a multi-fragment message was reassembled and a fault fired; distinct = distinct scheduler decision traces",
     "components": TIER_A,
@@ -180,7 +180,7 @@ PROPS["C10"] = {
 PROPS["C15"] = {
     "pkg": "stk", "env": {"SIM_PROP": "C15"},
     "legs": ["string/tell/sim", "string/ask/mem", "string/ask/mbapp-sim", "varint/tell/sim", "varint/ask/mem", "u16/tell/sim", "u16/ask/mem", "u32/tell/mem", "u32/ask/mem", "u64/tell/sim", "u64/ask/mbapp-sim", "string/tell/mem", "varint/tell/frag-sim"],
-    "runs": {"quick": 2600, "thorough": 150000}, "budget": {"quick": 200, "thorough": 2400},
+    "runs": {"quick": 2600, "thorough": 150000}, "budget": {"quick": 200, "thorough": 700},
     "rule": "one run = one multiplexer kind (string, varint, 16/32/64-bit; tell, ask and secure variants) on 2-3 nodes with 2-5 simultaneously open channels drawn from extremes (empty string, 127/128-byte strings, strings that are prefixes of each other or look like length prefixes, 0, maximal integers, integers whose encodings are prefixes of others), some channels open on one node only; concurrent tells and asks on every channel, payloads include empty ones and ones that start like a header; "
             "non-trivial = something was delivered or served, more than one channel, several tasks runnable; distinct = distinct scheduler decision traces",
     "components": TIER_A,
@@ -194,7 +194,7 @@ ADDR_STACKS = STACKS + ["mapudp/sim", "mapssh/sim", "p2pke/mapudp/sim", "frag/p2
                         "p2pke/mapssh/sim", "p2pke/p2pke/sim", "frag/p2pke/mapssh/sim", "multi/mem+p2pke/mapssh/sim"]
 PROPS["C16"] = {
     "pkg": "stk", "env": {"SIM_PROP": "C16"}, "legs": ADDR_STACKS,
-    "runs": {"quick": 1900, "thorough": 100000}, "budget": {"quick": 200, "thorough": 2400},
+    "runs": {"quick": 1900, "thorough": 100000}, "budget": {"quick": 200, "thorough": 700},
     "rule": "one run = one stack (the 27 catalogue stacks plus 8 whose addresses have the UDP form ip:port and the SSH form fingerprint@ip:port, produced by the address-mapping swarm with udpswarm's and sshswarm's own address types and parsers, alone and nested under P2PKE, fragmenting, multiplexing and multi-transport swarms); per-run hosts are IPv4, IPv6 and IPv4-mapped IPv6 with ports 1..65535, keys and hence fingerprints/peer ids come from the seed; "
             "every address observed (LocalAddrs of every node, the address every node uses for every other, Src and Dst of every delivered tell and ask) is marshalled and parsed back with the swarm that handed it out and with every other node's swarm; "
             "non-trivial = more than two addresses round-tripped and traffic was delivered; distinct = distinct scheduler decision traces",
@@ -211,7 +211,7 @@ CHN = {
 }
 PROPS["C07"] = {
     "pkg": "chn", "env": {"SIM_PROP": "C07"}, "legs": ["heal", "heal", "restart", "steady"],
-    "runs": {"quick": 1600, "thorough": 150000}, "budget": {"quick": 240, "thorough": 2400},
+    "runs": {"quick": 1600, "thorough": 150000}, "budget": {"quick": 240, "thorough": 700},
     "rule": "one run = two real Channels with per-run timers (handshake backoff 50-250 ms, keep-alive 1-3 s, rekey 1-8 s, reject 2-24 s) over the simulated network; leg heal: 1-2 pending Sends per side with seeded relative timing, an adversarial prefix over the first 1-8 channel messages (drop, duplicate, reorder, delay across timer firings), then prompt in-order loss-free delivery; leg restart: the peer is replaced by a fresh Channel with the same key after 0-5 delivered handshake messages; leg steady: an established channel under two-way traffic every keep-alive/3 for 3-7 rekey periods; "
             "non-trivial = a Send completed and (heal/restart) a fault fired; distinct = distinct scheduler decision traces",
     "components": CHN,
@@ -222,7 +222,7 @@ PROPS["C07"] = {
 
 PROPS["C05"] = {
     "pkg": "chn", "env": {"SIM_PROP": "C05"}, "legs": ["predicates", "predicates", "foreign"],
-    "runs": {"quick": 1500, "thorough": 150000}, "budget": {"quick": 240, "thorough": 2400},
+    "runs": {"quick": 1500, "thorough": 150000}, "budget": {"quick": 240, "thorough": 700},
     "rule": "one run = two real Channels with per-run acceptance predicates (accept all / none / only the peer's key / all but the peer's key) and short timers (rekey 1-4 s), both sides sending from the start (simultaneous initiation) or one only, repeated Sends across rekeys, WaitReady; leg foreign adds a third real Channel with another key that handshakes with A while receiving copies of everything A sends, before or after A and B are established; network drop/duplicate/reorder and all interleavings from the seed; "
             "non-trivial = several acceptance checks were evaluated and several tasks were runnable at once; distinct = distinct scheduler decision traces",
     "components": CHN,
@@ -232,10 +232,10 @@ PROPS["C05"] = {
 }
 
 PROPS["C04"] = {
-    "tierb": {"legs": ["quic/mem"], "runs": {"quick": 48, "thorough": 1500}, "budget": {"quick": 150, "thorough": 1500}},
+    "tierb": {"legs": ["quic/mem"], "runs": {"quick": 48, "thorough": 700}, "budget": {"quick": 150, "thorough": 700}},
     "pkg": "stk", "env": {"SIM_PROP": "C04"},
     "legs": ["p2pke/sim", "p2pke/mem", "frag/p2pke/sim", "mbapp/p2pke/sim", "mux-string/frag/p2pke/sim", "wl/mbapp/p2pke/sim", "p2pke/mapudp/sim", "p2pke/sim"],
-    "runs": {"quick": 1600, "thorough": 100000}, "budget": {"quick": 240, "thorough": 2400},
+    "runs": {"quick": 1600, "thorough": 100000}, "budget": {"quick": 240, "thorough": 700},
     "rule": "one run = one P2PKE-secured stack (bare, under fragmenting / message-box / multiplexer / whitelist layers, over the simulated network, the in-memory swarm and UDP-form addresses) on 3-4 nodes with keys from the seed; a random whitelist relation between identities; tells and asks to the right address and to wrong-identity addresses (right transport address, another node's or nobody's peer id); a packet-level adversary that replays, cross-feeds, reflects, bit-flips and re-injects with a spoofed transport source every datagram it has seen; network drop/duplicate/reorder/corrupt and all interleavings; "
             "non-trivial = a key lookup inside a handler was checked and a fault fired; distinct = distinct scheduler decision traces",
     "components": TIER_A,
@@ -249,7 +249,7 @@ PROPS["C08"] = {
     "legs": ["frag/sim", "mbapp/sim", "mux-string/sim", "mux-varint/sim", "mux-u16/sim", "mux-u32/sim", "mux-u64/sim", "askmux-string/mbapp/sim", "askmux-varint/mbapp/sim",
              "multi/mem+sim", "multi/mbapp/mem+mbapp/sim", "p2pke/sim", "frag/p2pke/sim", "mbapp/p2pke/sim", "wl/mbapp/sim", "map/frag/sim", "frag/frag/sim", "mbapp/frag/sim", "frag/mem", "mbapp/mem", "mux-string/mem",
              "session", "dht", "frag/sim", "mbapp/sim", "mux-string/sim"],
-    "runs": {"quick": 2600, "thorough": 200000}, "budget": {"quick": 240, "thorough": 2400},
+    "runs": {"quick": 2600, "thorough": 200000}, "budget": {"quick": 240, "thorough": 700},
     "rule": "one run = one packet-facing layer (fragmenting swarm, message-box swarm incl. ask path, the five multiplexers incl. ask multiplexers, multi-transport, P2PKE swarm/channel, nestings; leg session: real P2PKE Sessions under the byte- and protocol-level adversary of C02/C03; leg dht: DHT handlers and caches) with honest traffic and an adversary at the transport that knows nothing of the formats: random bytes, and mutations of genuine packets captured in the same run (bit flips, truncation at every length, extension, boundary integers written at or inserted before any offset incl. maximal/overlong uvarints, spliced prefixes), mostly re-injected with the genuine packet's source and destination so that they contradict the genuine siblings already in the reassembly state; clock advances across the GC timers; "
             "non-trivial = a fault was injected and honest traffic was delivered; distinct = distinct scheduler decision traces",
     "components": TIER_A,
@@ -264,7 +264,7 @@ PROPS["C14"] = {
     "legs": ["race:mem", "race:frag/mem", "race:mbapp/mem", "race:mux-string/mem", "race:askmux-string/mem", "race:p2pke/mem", "race:mbapp/p2pke/mem", "race:frag/p2pke/mem", "race:wl/mbapp/mem",
              "race:map/frag/mem", "race:kad", "race:hubs", "race:channel",
              "own:frag/sim", "own:mbapp/sim", "own:mem", "own:mbapp/mem", "own:p2pke/sim", "own:mux-varint/mux-string/sim", "own:mbapp/p2pke/sim"],
-    "runs": {"quick": 320, "thorough": 20000}, "budget": {"quick": 420, "thorough": 2400},
+    "runs": {"quick": 320, "thorough": 20000}, "budget": {"quick": 420, "thorough": 700},
     "rule": "legs race:<stack>: one run = one seeded workload in which free-running goroutines (8 procs, Go race detector on, real clock: mutexes held across blocking hand-overs would stall a fake clock) call Tell, Ask, Receive, ServeAsk, LookupPublicKey, PublicKey, LocalAddrs, MTU and Close (twice, while traffic flows) concurrently on every node of a stack over the real in-memory swarm; callbacks checksum their message on entry and exit and write to it; legs race:kad / race:hubs / race:channel do the same for the Kademlia cache and DHT node, the hubs and queue, and a pair of P2PKE channels across rekeys; "
             "legs own:<stack>: the scheduled (replayable) C01 workload, keeping the buffer-ownership classes; non-trivial = something was delivered; distinct = distinct (stack, seed, deliveries) or scheduler decision traces",
     "components": {"real": ["every package of /repo (uninstrumented behaviour: all scheduler hooks are no-ops in the race legs)"], "stub": ["clock: real for race:<stack>, synctest fake clock for race:kad/hubs/channel and the own legs", "transport: the real in-memory swarm", "workload seeded; goroutine scheduling is NOT controlled in the race legs"], "tier": "race legs: not replayable exactly (seed + report); own legs: A"},
